@@ -31,6 +31,8 @@ CInitHN(h, nz) ==
                                      \* finish | connect]; more than one only while an abandoned attempt is still unwinding
                dc |-> <<>>,          \* connections a disconnect() call is still running on (one entry per call)
                nstop |-> 0,          \* how often the application's stop callback has been invoked
+               gr |-> {},            \* connections on which a graceful end has been initiated (disconnect() / force, device request)
+               sa |-> <<>>,          \* the arguments the stop callback was invoked with, in order
                wf |-> {},            \* connections whose transport raises on write from now on (broken pipe, reset)
                dn |-> <<>>,          \* operations that ended in this callback: <<op, class>>
                gate |-> "none" ]     \* verdict of the API gate in this callback: none | open | shut | shut_in_stop
@@ -53,7 +55,9 @@ Rank(v) == CASE v = "init" -> 0 [] v = "opened" -> 1 [] v = "hsdone" -> 2 [] v =
 Close(x, i) ==
   IF x.st[i] = "closed" THEN x
   ELSE LET stop == x.ever[i] /\ x.st[i] = "connected"
-           y == [x EXCEPT !.st[i] = "closed", !.ptr = IF stop THEN 0 ELSE @, !.nstop = IF stop THEN @ + 1 ELSE @]
+           \* (its argument: had a graceful end been initiated on THIS connection before it closed - C07)
+           y == [x EXCEPT !.st[i] = "closed", !.ptr = IF stop THEN 0 ELSE @, !.nstop = IF stop THEN @ + 1 ELSE @,
+                          !.sa = IF stop THEN Append(@, i \in x.gr) ELSE @]
        IN IF ~stop \/ x.hook = "none" THEN y
           ELSE IF x.hook = "start"
                THEN [y EXCEPT !.st = Append(@, "init"), !.ever = Append(@, FALSE), !.ptr = Len(y.st) + 1,
@@ -92,9 +96,12 @@ AfterDisconnect(x, i) ==
 
 \* disconnect(force): force closes at once; a graceful one may have to wait (finish phase in
 \* progress, DisconnectResponse outstanding) and then ends in DiscEnd
+\* (a graceful disconnect() first waits for a finish phase in progress on that connection; only when it goes on -
+\* DiscProceed - is the end it brings about an expected one)
+FinishOn(x, i) == \E j \in 1..Len(x.phs) : x.phs[j].on = i /\ x.phs[j].k = "finish"
 UserDisconnect(x0, force) ==
-  LET x == Begin(x0) IN
-  IF x.ptr = 0 THEN {Done(x, "disconnect", "ok")}
+  LET x == [Begin(x0) EXCEPT !.gr = IF x0.ptr # 0 /\ (force \/ ~FinishOn(x0, x0.ptr)) THEN @ \cup {x0.ptr} ELSE @] IN
+  IF x0.ptr = 0 THEN {Done(Begin(x0), "disconnect", "ok")}
   ELSE LET i == x.ptr
            now == {Done(y, "disconnect", "ok") : y \in AfterDisconnect(Close(x, i), i)}
        IN IF force THEN now
@@ -162,6 +169,16 @@ Progress(x0) ==
 \* two phases nothing can happen to a connection but the user's own disconnect
 HasIO(x, i) == x.st[i] \in {"hsdone", "connected"} \/ \E j \in 1..Len(x.phs) : x.phs[j].k = "finish" /\ x.phs[j].on = i
 EnvClose(x0, i) == IF i \in 1..N(x0) /\ x0.st[i] # "closed" /\ HasIO(x0, i) THEN {Close(Begin(x0), i)} ELSE {}
+
+\* the device asks connection i to disconnect: an expected end - if the connection listens already (its internal
+\* handlers are registered from the moment the handshake is complete); otherwise the request is ignored
+EnvDiscReq(x0, i) ==
+  IF i \in 1..N(x0) /\ x0.st[i] # "closed" /\ HasIO(x0, i)
+  THEN {Begin(x0), Close([Begin(x0) EXCEPT !.gr = @ \cup {i}], i)} ELSE {Begin(x0)}
+
+\* a pending disconnect() goes on after its wait for the finish phase (which ended, or 5 s passed)
+DiscProceed(x0, i) == IF i \in 1..N(x0) /\ (\E j \in 1..Len(x0.dc) : x0.dc[j] = i) /\ i \notin x0.gr /\ x0.st[i] # "closed"
+                      THEN {[Begin(x0) EXCEPT !.gr = @ \cup {i}]} ELSE {}
 
 \* a pending disconnect() call returns: its connection is closed by then
 InDc(x, i) == \E j \in 1..Len(x.dc) : x.dc[j] = i
